@@ -401,6 +401,17 @@ impl BDF {
                 lin_solve(&lu_matrix, &mut rhs, &pivot);
 
                 let dy_norm = weighted_rms_scaled(&rhs, &scale);
+                // An increment far below the convergence tolerance means the iterate has converged
+                // (at a steady state the increments are rounding noise and the ratio of two of them
+                // says nothing about the convergence rate).
+                if dy_norm <= 1e-3 * newton_tol_val {
+                    for i in 0..n {
+                        y_new[i] += rhs[i];
+                        delta[i] += rhs[i];
+                    }
+                    converged = true;
+                    break;
+                }
                 let mut rate_condition = false;
                 if let Some(prev) = dy_norm_prev {
                     if prev > 0.0 {
